@@ -276,7 +276,16 @@ def build_cases(ctx, doif_printed, mf_printed):
         r = Rule()
         r.id, r.kind, r.set, r.part, r.abs, r.exp, r.model, r.dev, r.leaf = len(rules), kind, key, part, absr, exp, model, dev, leaf
         if kind == "doif":
+            # the action's match_mode x match_invert (with EMPTY match_fields) is a dimension of every do_if replay:
+            # do_if decides alone.  Variant 0 = neither key; 1..8 = the four modes, not inverted / inverted.
+            v = len(rules) % 9
             cfgobj = {"type": "verif_c14", "do_if": cfgobj}
+            if v:
+                cfgobj["match_mode"] = ("and", "or", "and_prefix", "or_prefix")[(v - 1) % 4]
+                if v > 4:
+                    cfgobj["match_invert"] = True
+                if v % 2:
+                    cfgobj["match_fields"] = {}
         r.cfg = enc(cfgobj)
         rules.append(r)
 
@@ -609,6 +618,9 @@ def run(ctx):
         mu = ctx.tlc("DoIf", cfgname, timeout=900, deadlock=False, name="DoIf/" + cfgname[5:-4])
         if mu.ok or mu.violated != "ImplRefinesDecl":
             raise vlib.Infra("spec mutant %s was not rejected by TLC: %s" % (what, mu.violated))
+    mu = ctx.tlc("MatchFields", "MatchFields_mutant_doif.cfg", timeout=600, deadlock=False, name="MatchFields/mutant_doif")
+    if mu.ok or mu.violated != "DoIfDecidesAlone":
+        raise vlib.Infra("spec mutant ~M_DoIfDecidesAlone (do_if as a pre-filter) was not rejected by TLC: %s" % mu.violated)
     # spec mutant: the repaired defect D11 switched back on must be rejected by TLC (ImplMatchesDecl)
     mu = ctx.tlc("MatchFields", "MatchFields_mutant_d11.cfg", timeout=1800, deadlock=False, name="MatchFields/mutant_d11")
     if mu.ok or mu.violated != "ImplMatchesDecl":
